@@ -490,3 +490,20 @@ brk("c05_cgi_type_parameters_dropped", [E(f"{STS}.__class_getitem__", lambda n: 
 brk("c05_cgi_returns_none", [E(f"{STS}.__class_getitem__", lambda n: isinstance(n, ast.Return), to("return None"), nth=-1)], {"C05": ["C05.14"]})
 brk("c05_meta_type_parameters_dropped", [E("state.structure.StateMeta.__new__", lambda n: isinstance(n, ast.Call) and U(n.func) == "attribute_annotations", lambda s: s.replace("type_parameters=type_parameters,", ""))], {"C05": ["C05.14"]})
 brk("c05_mapping_factory_returns_none", [E("state.validation._prepare_validator_of_mapping", lambda n: isinstance(n, ast.Return) and U(n) == "return validator", to("return None"))], {"C05": ["C05.15"]})
+
+# =============================================================================================== round 4 additions
+brk("c04_replace_filters_kwargs", [E(f"{STS}.__replace__", lambda n: isinstance(n, ast.Return), to("return self.__class__(**{**vars(self), **{k: v for k, v in kwargs.items() if v is not None}})"))], {"C04": ["C04.4"]})
+brk("c04_default_bypasses_validator", [E("state.structure.StateAttribute.validated", lambda n: isinstance(n, ast.Return), to("return self.default if value is MISSING and self.default is not MISSING else self.validator(value)"))], {"C04": ["C04.9"], "C05": ["C05.1"]})
+ben("c05_validated_split_on_default", [E("state.structure.StateAttribute.validated", lambda n: isinstance(n, ast.Return), to("if value is MISSING and self.default is not MISSING:" + NL + "    return self.validator(self.default)" + NL + "return self.validator(value)"))], ["C04", "C05"], note="value is MISSING and no default: validator(value) == validator(default)")
+brk("c05_default_from_namespace", [E("state.structure.StateMeta.__new__", expr("getattr(state_type, key, MISSING)"), to("namespace.get(key, MISSING)"))], {"C05": ["C05.16"]})
+brk("c05_default_fallback_none", [E("state.structure.StateMeta.__new__", expr("getattr(state_type, key, MISSING)"), to("getattr(state_type, key, None)"))], {"C05": ["C05.16"]})
+ben("c05_default_try_getattr", [E("state.structure.StateMeta.__new__", lambda n: isinstance(n, ast.Assign) and "StateAttribute(" in U(n), lambda s: "try:" + NL + "    default = getattr(state_type, key)" + NL + "except AttributeError:" + NL + "    default = MISSING" + NL + s.replace("getattr(state_type, key, MISSING)", "default"))], ["C05", "C04"])
+brk("c07_futures_cancelled_error", [E("mod:context.tasks", lambda n: isinstance(n, ast.ImportFrom) and n.module == "asyncio", lambda s: s.replace("CancelledError, ", "") + NL + "from concurrent.futures import CancelledError")], {"C07": ["C07.1"]})
+ben("c07_cancelled_error_alias", [E("mod:context.tasks", lambda n: isinstance(n, ast.ImportFrom) and n.module == "asyncio", lambda s: s.replace("CancelledError, ", "") + NL + "from asyncio.exceptions import CancelledError")], ["C07", "C06", "C02"])
+brk("c08_scope_dedupes_disposables", [E("context.access.ctx.scope", expr("Disposables(*iterable)"), to("Disposables(*set(iterable))"))], {"C08": ["C08.9"]})
+brk("c08_init_filters_disposables", [E("context.disposables.Disposables.__init__", lambda n: isinstance(n, ast.AnnAssign), lambda s: s.replace("= disposables", "= tuple(d for d in disposables if d is not None)"))], {"C08": ["C08.9"]})
+ben("c08_scope_tuple_copy", [E("context.access.ctx.scope", expr("Disposables(*iterable)"), to("Disposables(*tuple(iterable))"))], ["C08", "C01"])
+for _c in ("_SyncCache", "_AsyncCache"):
+    brk(f"c12_key_rebound_{_c}", [E(f"helpers.caching.{_c}.__call__", lambda n: isinstance(n, ast.Match), before("if not kwargs:" + NL + "    key = args"))], {"C12": ["C12.1"]})
+for kind, fq in (("sync", "helpers.retries._wrap_sync.wrapped"), ("async", "helpers.retries._wrap_async.wrapped")):
+    brk(f"c14_attempt_numbers_from_two_{kind}", [E(fq, lambda n: isinstance(n, ast.AnnAssign) and U(n.target) == "attempt", sub("= 0", "= 1")), E(fq, lambda n: isinstance(n, ast.Compare) and "limit" in U(n), sub("<", "<="))], {"C14": ["C14.7"]})
